@@ -7,4 +7,9 @@ require (
 	pgregory.net/rapid v1.3.0
 )
 
+require (
+	github.com/denisbrodbeck/machineid v1.0.1 // indirect
+	golang.org/x/crypto v0.0.0-20210415154028-4f45737414dc // indirect
+)
+
 replace github.com/goatcms/goatcore => /repo
